@@ -160,6 +160,11 @@ Locs == {"info",        \* info dict strings (standard and custom key)
          "streamdict",  \* string inside the dictionary of a stream
          "outline",     \* bookmark title
          "xmp",         \* XMP metadata stream
+         "indstr_annot",   \* a string that is an indirect object of its own, referenced from private annotation keys
+         "indstr_array",   \* ... from a (nested) array hanging on a private annotation key
+         "indstr_info",    \* ... from a private info dict key
+         "indstr_page",    \* ... from a private page dict key
+         "indstr_catalog", \* ... from a private catalog key
          "sigwidget",   \* /Contents (alternate text) of the widget annotation of a signature field
          "sigcontents"} \* /Contents of a signature dictionary: the signature value
 
